@@ -18,6 +18,7 @@ func init() {
 			"(R2) the kill routine forwards Kill (same poison flag) to every child, one call per iteration, never leaving the loop early; (R3) the killed mark is taken only on the 'no children left' edge and every later step of the kill chain does nothing unless the mark was won; " +
 			"(R4) on the terminating path unsubscribe-all, registry removal, one OnKilled to every watcher and to the parent, ActorKilledEvent and scheduler clear each happen exactly once, and none of the first five is reachable on the restart path; the registry removal precedes every termination notice; " +
 			"(R5) ActorOf refuses when the parent is killed and kills the new child when the parent is killing; (R6) a child's death is recorded before the killed gate is evaluated. " +
+			"(R10) the handler that records watchers stores the sender on every path, except on the edge where the sender is the parent (notified separately), where the same key is already recorded, or after telling the sender directly; " +
 			"(R9 = C20.R1) the scheduler-cleanup step deletes every recorded job, the loop is never left early. NOT decided: cross-actor ordering of termination reports at run time, concurrent kills racing spawns.",
 		Assumptions: []string{"the kill chain steps are exactly the functions appended in the context's kill-chain builder (chain idiom)"},
 		Rules: []Rule{
@@ -29,6 +30,7 @@ func init() {
 			{ID: "C06.R6", Min: 1, Desc: "child death recorded before the killed gate", Fn: c06ChainOrder},
 			{ID: "C06.R8", Min: 4, Desc: "every spawned child is in the parent's child table before it runs, so the kill fan-out reaches it (C05.R2)", Fn: c05Spawn},
 			{ID: "C06.R9", Min: 2, Desc: "scheduler jobs of a dead actor are all deleted (C20.R1)", Fn: c20Die},
+			{ID: "C06.R10", Min: 1, Desc: "the watch handler registers every watcher other than the parent", Fn: c06WatchRegisters},
 			{ID: "C06.R7", Min: 8, Desc: "subscription indexes stay consistent, so unsubscribe-all on termination finds every subscription (C19.R2)", Fn: c19Indexes},
 		},
 	})
@@ -519,4 +521,112 @@ func c06ChainOrder(p *Program, r *Report) {
 	}
 	a, b := lc.Chain.indexOf(lc.ChildDeath), lc.Chain.indexOf(lc.MarkKilled)
 	r.Check(a >= 0 && b >= 0 && a < b, "child death precedes the killed gate", lc.OnKilledFn.Pos(), fmt.Sprintf("kill chain order: child-table delete is step %d, killed gate is step %d", a, b))
+}
+
+
+// c06WatchRegisters: "every actor watching it receives exactly one OnKilled" needs every watch request to end up in the table
+// the cleanup step iterates. The table is found from that loop; in each function storing into it, no path reaches an exit
+// without the store except through: the edge on which the requester is the parent (told separately by the cleanup), the
+// found-edge of a lookup in the same table (already registered), or a direct tell to the requester.
+func c06WatchRegisters(p *Program, r *Report) {
+	lc := lcOrFail(p, r)
+	if lc == nil {
+		return
+	}
+	cg := p.igx(lc.Cleanup)
+	var table *types.Var
+	func() {
+		defer p.withGraph(cg)()
+		for _, f := range cg.Fns {
+			for _, ts := range p.tellSites(f) {
+				for _, o := range p.origins(ts.Recipient) {
+					if i := strings.Index(o, "next<-range<-field:"+lc.Ctx.Obj().Name()+"."); i >= 0 {
+						name := o[i+len("next<-range<-field:"+lc.Ctx.Obj().Name()+"."):]
+						if j := strings.Index(name, "<-"); j >= 0 {
+							name = name[:j]
+						}
+						table = fieldVar(lc.Ctx, name)
+					}
+				}
+			}
+		}
+	}()
+	if table == nil {
+		r.Unresolved("watcher table (the context field the cleanup step's notification loop ranges over)")
+		return
+	}
+	n := 0
+	for _, fn := range p.methodsOf(lc.Ctx) {
+		if fn.Parent() != nil || len(fn.Blocks) == 0 {
+			continue
+		}
+		direct := false
+		for _, b := range fn.Blocks {
+			for _, in := range b.Instrs {
+				if mu, ok := in.(*ssa.MapUpdate); ok {
+					if f, _ := fieldLoad(strip(mu.Map)); f == table {
+						direct = true
+					}
+				}
+			}
+		}
+		if !direct {
+			continue
+		}
+		g := p.igx(fn)
+		restore := p.withGraph(g)
+		stores := map[int]bool{}
+		allowed := map[edge]bool{}
+		for i, in := range g.Nodes {
+			switch x := in.(type) {
+			case *ssa.MapUpdate:
+				if f, _ := fieldLoad(strip(x.Map)); f == table {
+					stores[i] = true
+				}
+			case *ssa.Lookup:
+				if f, _ := fieldLoad(strip(x.X)); f == table && x.CommaOk {
+					found, _ := g.okEdgesLookup(x)
+					for e := range found {
+						allowed[e] = true
+					}
+				}
+			}
+		}
+		isParent, _ := callEdges(g, func(c *ssa.Call) bool {
+			name := ""
+			if c.Call.IsInvoke() {
+				name = c.Call.Method.Name()
+			} else if sc := c.Call.StaticCallee(); sc != nil {
+				name = sc.Name()
+			}
+			if name != "Equals" {
+				return false
+			}
+			for _, a := range append([]ssa.Value{c.Call.Value}, c.Call.Args...) {
+				if a != nil && allContain(p.origins(a), lc.pat(lc.ParentF)) {
+					return true
+				}
+			}
+			return false
+		})
+		for e := range isParent {
+			allowed[e] = true
+		}
+		// a direct answer to the requester instead of a registration
+		for _, f := range g.Fns {
+			for _, ts := range p.tellSites(f) {
+				if ts.Recipient != nil && anyContains(p.origins(ts.Recipient), "Sender") {
+					stores[g.Idx[ts.In]] = true
+				}
+			}
+		}
+		restore()
+		n++
+		leak := anyIn(g.Reach(g.entry(), stores, allowed), g.Exits)
+		r.Check(!leak, "watch request is recorded on every path ("+fn.Name()+")", fn.Pos(),
+			"from the entry of the handler every path stores the requester into the watcher table, except on the edge where the requester is the parent, where the same key is already present, or after telling the requester directly: a watcher that is not recorded never receives OnKilled")
+	}
+	if n == 0 {
+		r.Unresolved("no function stores into the watcher table")
+	}
 }
